@@ -218,9 +218,18 @@ int TempResultToFloat(TempResult* pResult) {
 
 int as_tempres_append_dynstr(as_dynstr_t* p_dest, TempResult const* pResult) {
     switch (pResult->Typ) {
-    case TempInt:
-        as_sdprcatf(p_dest, "%" PRId64, pResult->Contents.Int);
+    case TempInt: {
+        /* this text is parsed again by the expression evaluator, so it must be
+           plain decimal digits and not follow the listing's byte split character */
+
+        char      Num[40];
+        LargeWord Abs = (pResult->Contents.Int < 0) ? (LargeWord)0 - (LargeWord)pResult->Contents.Int
+                                                    : (LargeWord)pResult->Contents.Int;
+
+        SysString(Num, sizeof(Num), Abs, 10, 0, False, 'a', '\0');
+        as_sdprcatf(p_dest, "%s%s", (pResult->Contents.Int < 0) ? "-" : "", Num);
         break;
+    }
     case TempFloat:
         as_sdprcatf(p_dest, "%0.16e", pResult->Contents.Float);
         KillBlanks(p_dest->p_str);
